@@ -1,5 +1,6 @@
 (* The expression fragment of the positive round-trip theorem of C02, and its token-level rendering.
-   ex        : identifiers, integer literals, prefix operators, binary infix operators
+   ex        : one-token operands (identifiers, integer / float / string literals, true / false, break / continue),
+               prefix operators, binary infix operators
    to_node   : the syntax tree of an ex
    toks c e  : the tokens the formatter emits for e when ExpressionPrecedence = c (parentheses exactly
                where PrefixExpression.PrettyPrint / InfixExpression.PrettyPrint put them)
@@ -10,16 +11,28 @@ From GrolModel Require Import Ast Parser.
 Import ListNotations.
 Local Open Scope Z_scope.
 
+(* one-token operands *)
+Inductive atom : Type :=
+| AId | AInt (v : Z) | AFloat (bits : N) | AStr | ABool | ACtl.
+
 Inductive ex : Type :=
-| EId (t : tok)
-| EInt (t : tok) (v : Z)
+| EAtom (t : tok) (a : atom)
 | EPre (op : tok) (e : ex)
 | EBin (op : tok) (l r : ex).
 
+Definition atom_node (t : tok) (a : atom) : node :=
+  match a with
+  | AId => NIdent t
+  | AInt v => NInt t v
+  | AFloat b => NFloat t b
+  | AStr => NString t
+  | ABool => NBool t (Z.eqb (ttype t) token_TRUE)
+  | ACtl => NControl t
+  end.
+
 Fixpoint to_node (e : ex) : node :=
   match e with
-  | EId t => NIdent t
-  | EInt t v => NInt t v
+  | EAtom t a => atom_node t a
   | EPre op r => NPrefix op (Some (to_node r))
   | EBin op l r => NInfix op (Some (to_node l)) (Some (to_node r))
   end.
@@ -54,7 +67,7 @@ Definition right_ctx (op : tok) (r : ex) : Z :=
 
 Fixpoint body (e : ex) : list tok :=
   match e with
-  | EId t | EInt t _ => [t]
+  | EAtom t _ => [t]
   | EPre op r => op :: (if paren ast_PREFIX r then LP :: body r ++ [RP] else body r)
   | EBin op l r =>
     let q := precedence_of (ttype op) in
@@ -73,10 +86,22 @@ Definition is_prefix_op (ty : Z) : bool :=
 Definition is_bin_op (ty : Z) : bool :=
   match table_get infix_fns ty with Some fn => String.eqb fn "parseInfixExpression" | None => false end.
 
+Definition has_prefix_fn (ty : Z) (fn : string) : bool :=
+  match table_get prefix_fns ty with Some g => String.eqb g fn | None => false end.
+
+Definition atom_wf (conv : numconv) (t : tok) (a : atom) : bool :=
+  match a with
+  | AId => Z.eqb (ttype t) token_IDENT
+  | AInt v => Z.eqb (ttype t) token_INT && match conv_int conv (tlit t) with Some w => Z.eqb v w | None => false end
+  | AFloat b => Z.eqb (ttype t) token_FLOAT && match conv_float conv (tlit t) with Some w => N.eqb b w | None => false end
+  | AStr => Z.eqb (ttype t) token_STRING
+  | ABool => Z.eqb (ttype t) token_TRUE || Z.eqb (ttype t) token_FALSE
+  | ACtl => has_prefix_fn (ttype t) "parseControlExpression"
+  end.
+
 Fixpoint wf_ex (conv : numconv) (e : ex) : bool :=
   match e with
-  | EId t => Z.eqb (ttype t) token_IDENT
-  | EInt t v => Z.eqb (ttype t) token_INT && match conv_int conv (tlit t) with Some w => Z.eqb v w | None => false end
+  | EAtom t a => atom_wf conv t a
   | EPre op r => is_prefix_op (ttype op) && wf_ex conv r
   | EBin op l r =>
     is_bin_op (ttype op) && wf_ex conv l && wf_ex conv r
@@ -86,8 +111,12 @@ Fixpoint wf_ex (conv : numconv) (e : ex) : bool :=
 (* recognise the fragment inside the general tree type *)
 Fixpoint of_node (n : node) : option ex :=
   match n with
-  | NIdent t => Some (EId t)
-  | NInt t v => Some (EInt t v)
+  | NIdent t => Some (EAtom t AId)
+  | NInt t v => Some (EAtom t (AInt v))
+  | NFloat t b => Some (EAtom t (AFloat b))
+  | NString t => Some (EAtom t AStr)
+  | NBool t v => if Bool.eqb v (Z.eqb (ttype t) token_TRUE) then Some (EAtom t ABool) else None
+  | NControl t => Some (EAtom t ACtl)
   | NPrefix op (Some r) => match of_node r with Some e => Some (EPre op e) | None => None end
   | NInfix op (Some l) (Some r) =>
     match of_node l, of_node r with Some a, Some b => Some (EBin op a b) | _, _ => None end
